@@ -34,7 +34,8 @@ EXPLANATION = (
     "tcp.Connection: connectionLost returns at once when the socket is gone and deletes the guard attribute before the "
     "single protocol.connectionLost(reason) call-out, after FileDescriptor.connectionLost and _closeSocket; empty reads "
     "map to CONNECTION_DONE and nothing is delivered for them; EWOULDBLOCK is not a loss; writeSomeData sends a prefix; "
-    "the half-close shuts only the write side; abortConnection is once-guarded. Not decided: byte-stream integrity on real "
+    "the half-close shuts only the write side; abortConnection is once-guarded; the single timer of the asyncio reactor has its armed-for marker cleared "
+    "when it fires (before the timed calls run), is re-armed afterwards, and callLater arms it whenever nothing is armed. Not decided: byte-stream integrity on real "
     "sockets, OS behaviour, kqueue/cf/gtk/iocp reactors."
     " METHODS: structural throughout (sibling CFG comparison, dominance / must-pass / must-precede on inlined views, table agreement); the errno handling of "
     "recv()/send() and the direction flags are finite-exhaustive (one representative per class the code distinguishes, no test left undecided). No bounded rules."
@@ -50,6 +51,7 @@ RULE_KINDS = {
     "tcp-write/wouldblock": "finite-exhaustive", "tcp-write/zero-only-wouldblock": "finite-exhaustive", "tcp-write/error-is-loss": "finite-exhaustive",
     # both values of the direction flag / method name
     "asyncio/method-follows-direction": "finite-exhaustive", "select/direction": "finite-exhaustive",
+    "tcp-read/errno-handled": "finite-exhaustive", "tcp-write/errno-handled": "finite-exhaustive",
 }
 ASSUMPTIONS = [
     "log.err()/log.callWithLogger do not raise and do not touch reactor state",
@@ -198,17 +200,34 @@ def _check_dispatch(ctx, rel, qual, q, minimum):
     return f, g, sites, disc, vars_
 
 
+_ERRNO_CLASS = {   # errno -> the exception classes an OSError with that errno is an instance of (PEP 3151), most specific first
+    11: ["BlockingIOError", "OSError", "IOError", "EnvironmentError", "error", "Exception", "BaseException"],       # EAGAIN / EWOULDBLOCK
+    105: ["OSError", "IOError", "EnvironmentError", "error", "Exception", "BaseException"],                          # ENOBUFS
+    32: ["BrokenPipeError", "ConnectionError", "OSError", "IOError", "EnvironmentError", "error", "Exception", "BaseException"],   # EPIPE
+}
+
+
 def _errno_cases(g, call_node):
-    """OSError handlers attached to ``call_node`` and the facts describing which errno was raised: ([handler ids], facts(errno))"""
-    hs = [h for h in succ_of(g, call_node, "exc") if g.node(h).kind == "handler" and g.node(h).ast.name]
-    def facts(code, hs=hs):
-        out = {"EWOULDBLOCK": 11, "ENOBUFS": 105, "EINTR": 4, "EAGAIN": 11}
-        for h in hs:
+    """The exception handlers attached to ``call_node``.  Returns (all handler ids, hs(errno), facts(errno)): ``hs(errno)`` is the handler that
+    catches an OSError carrying that errno - the first one, in source order, whose type covers the exception's class (a handler may select by
+    class, ``except BlockingIOError``, as well as by testing the errno) - and ``facts(errno)`` describes the caught object for its tests."""
+    allh = sorted((h for h in succ_of(g, call_node, "exc") if g.node(h).kind == "handler"), key=lambda h: g.node(h).ast.lineno)
+
+    def hs(code):
+        for h in allh:
+            if g.node(h).ast.type is None or set(handler_names(g.node(h).ast)) & set(_ERRNO_CLASS[code]):
+                return [h]
+        return []
+
+    def facts(code):
+        out = {"EWOULDBLOCK": 11, "ENOBUFS": 105, "EINTR": 4, "EAGAIN": 11, "EPIPE": 32}
+        for h in allh:
             nm = g.node(h).ast.name
-            out[f"{nm}.args[0]"] = code
-            out[f"{nm}.errno"] = code
+            if nm:
+                out[f"{nm}.args[0]"] = code
+                out[f"{nm}.errno"] = code
         return out
-    return hs, facts
+    return allh, hs, facts
 
 
 def check(ctx):
@@ -579,18 +598,20 @@ def check(ctx):
         ctx.floor("tcp-read/wouldblock", len(lost), 1)
         recv0 = calls_with(g, "self.socket.recv")
         ctx.need(recv0, "self.socket.recv in doRead")
-        hs, facts = _errno_cases(g, recv0[0][0])
-        ctx.need(hs, "except OSError as <name> around recv()")
+        allh, hs, facts = _errno_cases(g, recv0[0][0])
+        ctx.need(allh, "an exception handler around recv()")
         for n in lost:
             # evaluated on the errno: with EWOULDBLOCK the loss is not reported, with another errno (EPIPE) it is
-            R = reach_under(g, facts(11), srcs=hs)
+            R = reach_under(g, facts(11), srcs=hs(11))
             ctx.check(n not in R and g.exit in R, "tcp-read/wouldblock-is-not-loss", ctx.construct(q, g.node(n).ast),
                       "EWOULDBLOCK from recv() is reported as a lost connection")
+        for code, name in ((11, "EWOULDBLOCK"), (32, "EPIPE")):
+            ctx.check(bool(hs(code)), "tcp-read/errno-handled", q + f" | <{name}>", f"an OSError with errno {name} raised by recv() is not caught in doRead")
         for code in (11, 32):
-            und = undecided_tests(g, facts(code), srcs=hs)
+            und = undecided_tests(g, facts(code), srcs=hs(code))
             if und:
                 ctx.note("tcp-read: the OSError handler of recv() also branches on " + src(g.node(und[0]).ast) + " (left free in the errno evaluation)")
-        w = must_pass_under(g, facts(32), lost, srcs=hs)
+        w = must_pass_under(g, facts(32), lost, srcs=hs(32))
         ctx.check(w is None, "tcp-read/error-is-loss", q + " | <errno other than EWOULDBLOCK>", "a failing recv() is not reported as CONNECTION_LOST", witness=g.describe(w))
         recvs = calls_with(g, "self.socket.recv")
         ctx.need(recvs, "self.socket.recv in doRead")
@@ -636,25 +657,27 @@ def check(ctx):
                           "the byte count accepted by send() is not returned")
         zero = [n.id for n in g.nodes if n.kind == "stmt" and isinstance(n.ast, ast.Return) and const_value_is(n.ast.value, lambda v: v == 0 and v is not False)]
         send_nodes = sorted({n for c in sends for n in g.ids_of(c)})
-        hs, facts = _errno_cases(g, send_nodes[0]) if send_nodes else ([], None)
-        ctx.need(hs, "except OSError as <name> around send()")
+        allh, hs, facts = _errno_cases(g, send_nodes[0]) if send_nodes else ([], None, None)
+        ctx.need(allh, "an exception handler around send()")
         lost = [n.id for n in g.nodes if n.kind == "stmt" and isinstance(n.ast, ast.Return) and n.ast.value is not None and "CONNECTION_LOST" in src(n.ast.value)]
+        for code, name in ((11, "EWOULDBLOCK"), (105, "ENOBUFS"), (32, "EPIPE")):
+            ctx.check(bool(hs(code)), "tcp-write/errno-handled", q + f" | <{name}>", f"an OSError with errno {name} raised by send() is not caught in writeSomeData")
         for code in (11, 105, 32):
-            und = undecided_tests(g, facts(code), srcs=hs)
+            und = undecided_tests(g, facts(code), srcs=hs(code))
             if und:
                 ctx.note("tcp-write: the OSError handler of send() also branches on " + src(g.node(und[0]).ast) + " (left free in the errno evaluation)")
         for code, name in ((11, "EWOULDBLOCK"), (105, "ENOBUFS")):
-            R = reach_under(g, facts(code), srcs=hs)
-            w = must_pass_under(g, facts(code), zero, srcs=hs)
+            R = reach_under(g, facts(code), srcs=hs(code))
+            w = must_pass_under(g, facts(code), zero, srcs=hs(code))
             for n in lost:
                 ctx.check(n not in R, "tcp-write/wouldblock-is-not-loss", ctx.construct(q, g.node(n).ast) + (" | ENOBUFS" if code == 105 else ""),
                           f"{name} from send() is reported as a lost connection")
             ctx.check(bool(zero) and w is None, "tcp-write/wouldblock-means-zero", q + f" | <{name}>", f"{name} from send() does not make writeSomeData report 0 bytes accepted",
                       witness=g.describe(w))
-        R = reach_under(g, facts(32), srcs=hs)
+        R = reach_under(g, facts(32), srcs=hs(32))
         for n in zero:
             ctx.check(n not in R, "tcp-write/zero-only-wouldblock", ctx.construct(q, g.node(n).ast), "writeSomeData reports 0 bytes for an error other than EWOULDBLOCK/ENOBUFS")
-        w = must_pass_under(g, facts(32), lost, srcs=hs)
+        w = must_pass_under(g, facts(32), lost, srcs=hs(32))
         ctx.check(bool(lost) and w is None, "tcp-write/error-is-loss", q + " | <errno other than EWOULDBLOCK/ENOBUFS>", "a failing send() is not reported as CONNECTION_LOST",
                   witness=g.describe(w))
         ctx.floor("tcp-write", len(zero) + len(lost), 2)
@@ -705,6 +728,56 @@ def check(ctx):
                 ctx.check(bool(st) and g.must_precede(st, [n]) is None,
                           "abort/io-disabled", c + f" | {attr}",
                           f"{attr} is not neutralised by abortConnection(): buffered data is still sent / data still delivered after the abort")
+
+
+    with ctx.section("asyncio timer"):
+        # delayed writes, callLater(0, connectionLost) of abortConnection and every other timed call of the asyncio reactor hang on one asyncio timer
+        # handle plus a marker saying for when it is armed.  Structural: the marker is cleared when the timer fires, BEFORE the timed calls run (they call
+        # callLater, which reads it); the timer is re-armed afterwards; callLater arms it whenever the marker says nothing is armed.
+        cls = "AsyncioSelectorReactor"
+        fr = _F(ctx, AIO, f"{cls}._reschedule")
+        gr = ctx.cfg(fr)
+        qa = Q + f"asyncioreactor.{cls}."
+        arm = [(n, c) for n, c in calls_with(gr, ".call_at", ".call_later")]
+        ctx.need(arm, "the asyncio call_at/call_later that arms the reactor's timer in _reschedule")
+        cb = None
+        for n, c in arm:
+            for a in c.args:
+                if isinstance(a, ast.Attribute) and src(a.value) == "self":
+                    cb = a.attr
+        ctx.need(cb, "the callback method given to call_at")
+        handle = {src(t) for n, c in arm for t in (gr.node(n).ast.targets if isinstance(gr.node(n).ast, ast.Assign) else [])}
+        fc = _F(ctx, AIO, f"{cls}.callLater")
+        gc = ctx.cfg(fc)
+        read_in_guard = {src(x) for t in gc.nodes if t.kind == "test" for x in walk_local(t.ast) if isinstance(x, ast.Attribute) and src(x.value) == "self"}
+        markers = sorted({src(t) for n_ in gr.nodes if n_.kind == "stmt" and isinstance(n_.ast, ast.Assign) for t in n_.ast.targets
+                          if isinstance(t, ast.Attribute) and src(t.value) == "self"} & read_in_guard - handle)
+        ctx.need(markers, "the attribute that records for when the timer is armed (set in _reschedule, tested in callLater)")
+        fo = _F(ctx, AIO, f"{cls}.{cb}")
+        go = ctx.cfg(fo)
+        run = call_nodes(go, "self.runUntilCurrent")
+        ctx.need(run, f"self.runUntilCurrent() in {cb}")
+        for mk_ in markers:
+            attr = mk_.split(".", 1)[1]
+            resets = self_assigns(go, attr, lambda v: const_value_is(v, lambda x: x is None))
+            w = go.must_precede(resets, run) if resets else None
+            ctx.check(bool(resets) and w is None, "asyncio-timer/marker-cleared-when-fired", qa + cb + f" | {mk_}",
+                      f"when the timer fires {mk_} still says a timer is armed while the timed calls run (and afterwards, once the queue has drained): a callLater issued "
+                      "from then on finds 'already armed for an earlier time' and never arms the asyncio timer - delayed calls (writes, abortConnection's connectionLost) "
+                      "are never run", witness=go.describe(w) if w else "")
+            w = must_pass_under(gc, {mk_: None, "self.timeout()": 0.0}, call_nodes(gc, "self._reschedule"))
+            ctx.check(w is None, "asyncio-timer/calllater-arms-when-idle", qa + "callLater" + f" | {mk_} is None", "callLater does not arm the timer although none is armed",
+                      witness=gc.describe(w))
+            sets = [n_ for n_ in self_assigns(gr, attr)]
+            w = must_pass_under(gr, {"self.timeout()": 1.5}, sets)
+            ctx.check(bool(sets) and w is None, "asyncio-timer/reschedule-records-arming", qa + "_reschedule" + f" | {mk_}", "the timer is armed without recording for when",
+                      witness=gr.describe(w))
+        w = must_pass_under(gr, {"self.timeout()": 1.5}, [n for n, _ in arm])
+        ctx.check(w is None, "asyncio-timer/reschedule-arms", qa + "_reschedule | <a timed call is pending>", "a pending timed call does not arm the asyncio timer", witness=gr.describe(w))
+        for r in run:
+            w = go.must_pass([r], call_nodes(go, "self._reschedule"))
+            ctx.check(w is None, "asyncio-timer/rearmed-after-run", ctx.construct(qa + cb, go.node(r).ast), "after running the due calls the timer is not armed for the remaining ones",
+                      witness=go.describe(w))
 
 
 MUTANTS = [
@@ -773,6 +846,12 @@ MUTANTS = [
            "        for selectable in w:\n            if selectable in self._reads:\n                _logrun(selectable, _drdw, selectable, \"doWrite\")\n", expect_rule="loop/select-rows"),
     Mutant("tcp-send-enobufs-is-loss", TCP, "            if se.args[0] in (EWOULDBLOCK, ENOBUFS):\n                return 0\n", "            if se.args[0] == EWOULDBLOCK:\n                return 0\n",
            expect_rule="tcp-write/"),
+    Mutant("asyncio-timer-marker-cleared-after-the-calls-ran", AIO, "        self._scheduledAt = None\n        self.runUntilCurrent()\n        self._reschedule()\n",
+           "        self.runUntilCurrent()\n        self._scheduledAt = None\n        self._reschedule()\n", expect_rule="asyncio-timer/marker-cleared-when-fired"),
+    Mutant("asyncio-timer-not-rearmed-after-run", AIO, "        self._scheduledAt = None\n        self.runUntilCurrent()\n        self._reschedule()\n",
+           "        self._scheduledAt = None\n        self.runUntilCurrent()\n", expect_rule="asyncio-timer/rearmed-after-run"),
+    Mutant("tcp-send-wouldblock-by-class-drops-enobufs", TCP, "        except OSError as se:\n            if se.args[0] in (EWOULDBLOCK, ENOBUFS):\n                return 0\n            else:\n                return main.CONNECTION_LOST\n",
+           "        except BlockingIOError:\n            return 0\n        except OSError:\n            return main.CONNECTION_LOST\n", expect_rule="tcp-write/"),
     Mutant("poll-stale-selectable-dispatched", POLL, "            except KeyError:\n                # Handles the infrequent case where one selectable's\n                # handler disconnects another.\n                continue\n",
            "            except KeyError:\n                pass\n", expect_rule="loop/unregistered-skipped"),
 ]
@@ -810,5 +889,11 @@ SILENT = [
     Silent("poll-lookup-by-membership-test", POLL, "            try:\n                selectable = self._selectables[fd]\n            except KeyError:\n                # Handles the infrequent case where one selectable's\n"
            "                # handler disconnects another.\n                continue\n",
            "            known = self._selectables\n            if fd not in known:\n                continue\n            selectable = known[fd]\n"),
+    Silent("tcp-recv-wouldblock-selected-by-exception-class", TCP, "        except OSError as se:\n            if se.args[0] == EWOULDBLOCK:\n                return\n            else:\n                return main.CONNECTION_LOST\n",
+           "        except BlockingIOError:\n            return\n        except OSError:\n            return main.CONNECTION_LOST\n"),
+    Silent("asyncio-timer-arming-as-guard-clause", AIO, "        if timeout is not None:\n            abs_time = self._asyncioEventloop.time() + timeout\n            self._scheduledAt = abs_time\n"
+           "            if self._timerHandle is not None:\n                self._timerHandle.cancel()\n            self._timerHandle = self._asyncioEventloop.call_at(abs_time, self._onTimer)\n",
+           "        if timeout is None:\n            return\n        when = self._asyncioEventloop.time() + timeout\n        self._scheduledAt = when\n"
+           "        if self._timerHandle is not None:\n            self._timerHandle.cancel()\n        self._timerHandle = self._asyncioEventloop.call_at(when, self._onTimer)\n"),
     Silent("polllike-locals-renamed", PB, "                    if not why and event & self._POLL_OUT:", "                    if (not why) and (event & self._POLL_OUT):"),
 ]
